@@ -448,7 +448,8 @@ class World(object):
                 ev.append(('cancel_parent',))
             if self.c_child_b:
                 ev.append(('cancel_child',))
-            if self.c_child_a and self.c_order_probe()[0] == 'put':
+            if self.c_child_a and not self.scn.get('cancel_split') and \
+               self.c_order_probe()[0] == 'put':
                 # the handler talks to the loop before it registers the
                 # request: that half matters where the loop reads its queue
                 ev.append(('cancel_child_list',))
@@ -462,7 +463,7 @@ class World(object):
                 for uid in self.oracle.running():
                     ev.append(('complete', uid))
         elif kind == 'cancel':
-            if self.c_child_a:
+            if self.c_child_a and not self.scn.get('cancel_split'):
                 ev.append(('cancel_child_list',))
             elif self.c_child_b and self.c_pending and \
                  self.c_pending[0][0] == 'list':
@@ -544,7 +545,15 @@ class World(object):
                 self.oracle.cancel_issued(self, self.to_cancel)
                 if self.c_child_a:
                     self.c_child_a = False
-                    self.child._control_cb(rpc.CONTROL_PUBSUB, self._cmsg())
+                    if self.scn.get('cancel_split'):
+                        # separate requests, one per task, back to back
+                        for uid in self.to_cancel:
+                            self.child._control_cb(rpc.CONTROL_PUBSUB,
+                                seams.wire({'cmd': 'cancel_tasks',
+                                            'arg': {'uids': [uid]}}))
+                    else:
+                        self.child._control_cb(rpc.CONTROL_PUBSUB,
+                                               self._cmsg())
                 else:
                     while self.c_pending:
                         self._apply_half(self.c_pending.pop(0))
